@@ -369,6 +369,14 @@ impl Check for C19 {
                         for a in &l {
                             listed.insert(a.clone());
                         }
+                        // the entry with port 72417 is listed as it stands (dialling it is
+                        // pointless but faithful; dialling 10.66.0.9:6881 is not)
+                        let i = (*n as usize).min(plan.tracker.steps.len().saturating_sub(1));
+                        if let Some((_, TrackerStep::Good { malformed, .. })) = plan.tracker.steps.get(i) {
+                            if *malformed > 5 {
+                                listed.insert(crate::run::BIG_PORT_ADDR.to_string());
+                            }
+                        }
                         // a well-formed reply that lists nobody usable is not "the good one" yet
                         last_reply_empty_good = l.is_empty();
                         if first_good.is_none() && !l.is_empty() {
@@ -464,6 +472,57 @@ impl Check for C19 {
                         "C19.never-reaches-good-reply",
                         format!("after {} failed announces the client stopped announcing: the good reply scripted as announce #{} was never fetched in {} ms", failures_seen, fails.len(), v.out.end_ms),
                         last,
+                    );
+                }
+            }
+        }
+        // T2c: every later good reply as well: the listed peers the client is not connected to are
+        // dialled (same staged demand as for the first one)
+        {
+            let mut last_snap: Option<&world::Snap> = None;
+            let mut goods: Vec<(u64, u64, Vec<String>, usize)> = Vec::new();
+            let mut seen_first = false;
+            for e in &v.out.entries {
+                match &e.ev {
+                    Ev::Snapshot(s) => last_snap = Some(s),
+                    Ev::TrackerReply { n, .. } => {
+                        if let Some(l) = listed_of(*n) {
+                            if l.is_empty() {
+                                continue;
+                            }
+                            if !seen_first {
+                                seen_first = true;
+                                continue;
+                            }
+                            let (connected, busy): (BTreeSet<String>, usize) = match last_snap {
+                                Some(s) => (s.peers.iter().map(|p| p.addr.clone()).collect(), s.peers.iter().filter(|p| p.am_interested).count()),
+                                None => (BTreeSet::new(), 0),
+                            };
+                            let open: Vec<String> = l.iter().filter(|a| !connected.contains(*a)).cloned().collect::<BTreeSet<_>>().into_iter().collect();
+                            goods.push((e.seq, e.t_ms, open, busy));
+                        }
+                    }
+                    _ => {}
+                }
+            }
+            for (seq, t0, open, busy) in goods {
+                let stage = match busy {
+                    0 => 5,
+                    1..=3 => 2,
+                    _ => 0,
+                };
+                let want = open.len().min(stage);
+                if want == 0 || v.out.end_ms < t0 + 10_000 {
+                    continue;
+                }
+                vd.probe("later_good_reply_with_unconnected_peers");
+                let got: BTreeSet<&String> = dials.iter().filter(|(t, a)| *t >= t0 && *t <= t0 + 10_000 && open.contains(a)).map(|(_, a)| a).collect();
+                if got.len() < want {
+                    vd.fail(
+                        "C19",
+                        "C19.listed-peers-not-contacted",
+                        format!("later good reply at t={} ms listed {:?} which the client was not connected to, but within 10 s only {:?} were dialled", t0, open, got),
+                        seq,
                     );
                 }
             }
